@@ -403,9 +403,25 @@ def _run(ix, R):
     site = SM + '::SimpleForwardModel.generate_profiles'
     with R.guard('4.mu', 'TAB', site, 'mu exported'):
         f = ix.func(site)
-        from sa.helpers import need
-        need(R, '4.mu', 'TAB', site, "generate_profiles adds 'mu_profile' = chemistry.muProfile to generate_profile_dict(self)", f,
-             ['V_p = generate_profile_dict(self)', "V_p['mu_profile'] = self.chemistry.muProfile", 'return V_p'])
+        from sa.helpers import dict_facts
+        fl = mkflow(ix, site)
+        stmt = "generate_profiles adds 'mu_profile' = chemistry.muProfile to generate_profile_dict(self), and returns that dictionary"
+        facts = dict_facts(fl).get('mu_profile', [])
+        r = the_return(fl)
+        base = spec(fl, 'generate_profile_dict(self)')
+        if len(facts) != 1 or facts[0][2] is None:
+            R.error('4.mu', 'TAB', site, stmt, "%d entries named 'mu_profile'" % len(facts), loc=f.loc())
+        else:
+            val, ev, cont = facts[0]
+            why = []
+            if not fl.tab.equal(val, spec(fl, 'self.chemistry.muProfile')) and \
+                    not fl.tab.equal(val, spec(fl, 'self._chemistry.muProfile')):
+                why.append("'mu_profile' = %s" % fmt(fl, val))
+            if ev.guards or ev.loops:
+                why.append("'mu_profile' is stored conditionally")
+            if not fl.tab.equal(cont, base) or not fl.tab.equal(r.value, base):
+                why.append('stored in %s, returns %s' % (fmt(fl, cont)[:60], fmt(fl, r.value)[:60]))
+            R.check('4.mu', 'TAB', site, stmt, not why, key='; '.join(why), detail='; '.join(why), loc=f.loc(ev.node))
     site = SM + '::SimpleForwardModel.altitudeProfile'
     with R.guard('4.alt', 'TAB', site, 'altitude getter'):
         f = ix.func(site)
